@@ -40,6 +40,10 @@ LL = [dict(fam=f, ne=ne, avoid=True, width=None, **cg) for f in ms.FAMS for ne i
       for cg in (dict(max_dist=60.0), dict(max_dist=100.0, max_dist_init=44.0, min_prob_norm=0.3), dict(min_prob_norm=0.6, max_dist=40.0))]
 
 
+REUSE_CFGS = [dict(fam=f, ne=ne, avoid=True, width=1, max_dist=1.5, max_dist_init=1.1) for f in ms.FAMS for ne in (False, True)] + \
+             [dict(fam="D", ne=True, avoid=True, width=1, max_dist=2.5, min_prob_norm=0.3)]
+
+
 def cfgs_for(sl):
     return MAIN if sl in ("n3", "special") else N4
 
@@ -58,6 +62,15 @@ def cases(tier):
             if tier == "quick" and gs[1] == 3 and al.nedges(gs[2]) > 3:
                 continue
             yield {"kind": "ll", "gs": list(gs), "anchor": ai, "T": 2 if tier == "quick" else 3, "tier": tier, "metric": "latlon"}
+    # the same matcher object reused for another trace after a widening / an extension: the cut-offs (in particular the
+    # initial radius around the NEW first observation) must hold for the new match as well
+    for hist in ([["M", 9], ["W", 2], ["N"]], [["M", 2], ["X", 9], ["N"]], [["M", 9], ["N"]]):
+        for gs in ms.graph_slice("n3"):
+            if al.nedges(gs[2]) >= 2 and (gs[0] == "GENERIC" or tier == "thorough"):
+                yield {"kind": "hist", "gs": list(gs), "slice": "hist", "T": 3, "hist": hist, "tier": tier, "metric": "planar"}
+        for name, pos, g in ms.special_graphs():
+            yield {"kind": "hist", "gs": ms.explicit(g), "pos": pos, "slice": "hist-special", "name": name, "T": 3, "hist": hist, "tier": tier,
+                   "metric": "planar"}
     # the planar metric at another magnitude: the same maps with coordinates (and all distance parameters) scaled by 2^-16
     # (roads of length ~3e-5, e.g. degrees used as planar coordinates) and by 2^23 (projected metres); emitting-only, since
     # the non-emitting search has absolute tolerances (known finding D11)
@@ -131,6 +144,8 @@ def run_case(case):
     res = dict(n=0, st=0, tr=0, tv=0, nt=0, out=[], v=[], k=[])
     if case.get("kind") == "scaled":
         return run_scaled(case, res)
+    if case.get("kind") == "hist":
+        return ps.run(case, cfgs_for, judge, res, hist_cfgs=REUSE_CFGS)
     if case.get("kind") != "ll":
         return ps.run(case, cfgs_for, judge, res)
     anchor = ANCHORS[case["anchor"]]
